@@ -434,7 +434,9 @@ class Inliner:
         blk['succ'] = [bmap[gentry]] if gentry != gexit else [int(cont)]
         blk.pop('term', None)
         # the call node becomes a use of the result
-        keep = {'loc': call.get('loc'), 'ty': call.get('ty')}
+        # (the argument expressions stay attached: they were evaluated for this call)
+        keep = {'loc': call.get('loc'), 'ty': call.get('ty'),
+                'args': [a_ for a_ in (call.get('args') or []) if isinstance(a_, int)]}
         inl_of = call['callee']
         call.clear()
         if has_val:
@@ -654,7 +656,7 @@ def desugar_bindings(functions_raw, known=None):
                     continue
                 ini = v['init']
                 ini = elems.get(str(ini)) if isinstance(ini, int) else ini
-                path = _object_path(elems, ini)
+                path = _object_path(elems, ini) if '&' in ty else None     # a reference names the object itself
                 if path is None and '&' not in ty and v.get('id'):
                     # `auto [a, b] = f();` - made into `auto t = f(); A a = std::get<0>(t); B b = std::get<1>(t);`
                     # unless the rules know this decomposition from the pinned tree
